@@ -345,6 +345,65 @@ pub fn case(max_ops: usize) -> impl Strategy<Value = Case> {
     (prop_oneof![1 => Just(0u8), 3 => any::<u8>()], prop::collection::vec(op, 0..max_ops), prop::collection::vec(q, 1..8)).prop_map(|(local_seed, ops, queries)| Case { local_seed, ops, queries })
 }
 
+// ---- byte decoder for the coverage-guided stage: same shapes and ranges as the strategies above ----------
+fn id_dec(u: &mut arbitrary::Unstructured) -> arbitrary::Result<IdPick> {
+    Ok(match u.int_in_range(0u8..=15)? {
+        0..=11 => {
+            let b = match u.int_in_range(0u8..=9)? {
+                0..=4 => u.int_in_range(0u8..=4)?,
+                5 | 6 => u.int_in_range(250u8..=255)?,
+                7 | 8 => u.int_in_range(5u8..=40)?,
+                _ => u.arbitrary()?,
+            };
+            IdPick::Bucket(b, u.arbitrary()?)
+        }
+        12 => IdPick::Local,
+        _ => IdPick::Earlier(u.arbitrary()?),
+    })
+}
+pub fn decode(data: &[u8]) -> Option<Case> {
+    let mut u = arbitrary::Unstructured::new(data);
+    let r: arbitrary::Result<Case> = (|| {
+        let local_seed = if u.ratio(1u8, 4u8)? { 0 } else { u.arbitrary()? };
+        let nq = u.int_in_range(1usize..=7)?;
+        let mut queries = Vec::new();
+        for _ in 0..nq {
+            queries.push(match u.int_in_range(0u8..=6)? {
+                0..=3 => Query::Find(id_dec(&mut u)?, u.int_in_range(0u8..=64)?),
+                4 | 5 => {
+                    let k = id_dec(&mut u)?;
+                    let c = match u.int_in_range(0u8..=5)? {
+                        0..=3 => CountPick::N(u.int_in_range(0u8..=64)?),
+                        4 => CountPick::Max,
+                        _ => CountPick::Big(u.arbitrary()?),
+                    };
+                    Query::FindNodeReq(k, c)
+                }
+                _ => Query::FindValueReq(id_dec(&mut u)?),
+            });
+        }
+        let n = u.int_in_range(0usize..=59)?;
+        let mut ops = Vec::new();
+        for _ in 0..n {
+            ops.push(match u.int_in_range(0u8..=10)? {
+                0..=2 => {
+                    let m = u.int_in_range(1usize..=5)?;
+                    let mut ids = Vec::new();
+                    for _ in 0..m {
+                        ids.push(id_dec(&mut u)?);
+                    }
+                    Op::Join(ids)
+                }
+                3..=8 => Op::Add(id_dec(&mut u)?),
+                9 => Op::Fail(id_dec(&mut u)?),
+                _ => Op::Evict(id_dec(&mut u)?),
+            });
+        }
+        Ok(Case { local_seed, ops, queries })
+    })();
+    r.ok()
+}
+
 // ---- (b) the node list in a manager's reply to a remote FIND_NODE / FIND_VALUE / GET -----------------
 #[derive(Debug, Clone, Serialize, Deserialize)]
 pub struct ReplyCase {
